@@ -422,6 +422,56 @@ def native_sample(payload):
                 viol.append(dict(what='SCOPE11 nvPM mass index', input=dict(SN=sn, engine=et, bpr=bpr, mode=m.name), observed=[g, want]))
         if len(viol) > 5:
             break
+    # MEEM: finite, non-negative, linear in the certification indices it is calibrated on
+    from AEIC.emissions.ei.pmnvol import PMnvol_MEEM
+    from AEIC.performance.edb import EDBEntry
+    from AEIC.utils.standard_atmosphere import pressure_at_altitude_isa_bada4, temperature_at_altitude_isa_bada4
+    for _ in range(max(10, n // 10)):
+        use_sn = rnd.random() < 0.4
+        mass = [rnd.uniform(1.0, 200.0) for _ in range(4)]
+        num = [rnd.uniform(1e13, 5e15) for _ in range(4)]
+        sn = [rnd.uniform(0.5, 45.0) for _ in range(4)]
+        mx = rnd.choice([(-1.0, -1.0), (rnd.uniform(50, 300), 0.575), (rnd.uniform(50, 300), 0.925)])
+        nx = rnd.choice([(-1.0, -1.0), (rnd.uniform(1e14, 6e15), 0.575), (rnd.uniform(1e14, 6e15), 0.925)])
+        pr = rnd.uniform(15.0, 45.0)
+
+        def entry(scale):
+            return EDBEntry(engine='E', uid='U' + str(scale), engine_type=rnd_et, BP_Ratio=bpr, rated_thrust=100.0,
+                            fuel_flow=ThrustModeValues(0.1, 0.3, 0.9, 1.1), CO_EI_matrix=ThrustModeValues(1, 1, 1, 1), HC_EI_matrix=ThrustModeValues(1, 1, 1, 1),
+                            EI_NOx_matrix=ThrustModeValues(1, 1, 1, 1), SN_matrix=ThrustModeValues(*sn),
+                            nvPM_mass_matrix=ThrustModeValues(*([-1.0] * 4 if use_sn else [scale * v for v in mass])),
+                            nvPM_num_matrix=ThrustModeValues(*([-1.0] * 4 if use_sn else [scale * v for v in num])),
+                            PR=ThrustModeValues(pr, pr, pr, pr), EImass_max=(scale * mx[0] if mx[0] > 0 else mx[0]), EImass_max_thrust=mx[1],
+                            EInum_max=(scale * nx[0] if nx[0] > 0 else nx[0]), EInum_max_thrust=nx[1])
+        rnd_et, bpr = rnd.choice(['TF', 'MTF']), rnd.uniform(0.3, 11.0)
+        k = rnd.randint(3, 12)
+        alt = np.array(sorted(rnd.uniform(500.0, 12500.0) for _ in range(k)))
+        if rnd.random() < 0.5:
+            alt = np.concatenate([alt, alt[::-1][1:]])
+        if rnd.random() < 0.3:
+            alt[1] = alt[0]
+        T = np.array([float(temperature_at_altitude_isa_bada4(a)) for a in alt])
+        Pm = np.array([float(pressure_at_altitude_isa_bada4(a)) for a in alt])
+        mach = np.array([rnd.uniform(0.3, 0.85) for _ in alt])
+        cases += 1
+        try:
+            g1 = PMnvol_MEEM(entry(1.0), alt, T, Pm, mach)
+            g3 = PMnvol_MEEM(entry(3.0), alt, T, Pm, mach) if not use_sn else None
+        except Exception as e:   # noqa
+            viol.append(dict(what='MEEM evaluates on valid certification data', input=dict(mass=mass, num=num, sn=sn, max=mx, nmax=nx, use_sn=use_sn), observed=f'{type(e).__name__}: {e}'))
+            continue
+        for name, a in zip(('GMD', 'mass index', 'number index'), g1):
+            a = np.asarray(a, float)
+            if not np.all(np.isfinite(a)) or np.any(a < 0):
+                viol.append(dict(what='MEEM finite and non-negative', input=dict(mass=mass, num=num, sn=sn, max=mx, nmax=nx, use_sn=use_sn, alt=alt.tolist()),
+                                 observed=f'{name}: {a.tolist()[:6]}'))
+        if g3 is not None:
+            for name, a, b in (('mass index', g1[1], g3[1]), ('number index', g1[2], g3[2])):
+                if not np.allclose(3.0 * np.asarray(a), np.asarray(b), rtol=1e-9, atol=0):
+                    viol.append(dict(what='MEEM scales linearly with the certification indices', input=dict(mass=mass, num=num, max=mx, nmax=nx),
+                                     observed=f'{name}: {np.asarray(a)[:3].tolist()} x 3 vs {np.asarray(b)[:3].tolist()}'))
+        if len(viol) > 5:
+            break
     return dict(cases=cases, violations=viol[:5], reproduced=bool(viol))
 
 
@@ -495,3 +545,219 @@ def replay_ei(payload):
     if not np.allclose(pm, wantpm, rtol=1e-12):
         bad.append(dict(what='FOA3', observed=list(map(float, pm)), required=wantpm))
     return dict(reproduced=bool(bad), observed=bad[:4])
+
+
+# ------------------------------------------------------------------------------------------------
+@unit('C12', 'scope11', ['AEIC.emissions.ei.pmnvol:calculate_PMnvolEI_scope11'], replay='contracts.C12:replay_scope11', max_paths=20000)
+def scope11(h):
+    """SCOPE11 per mode for every smoke-number pattern (invalid -1 / 0 markers, positive numbers incl. > 40), both
+    engine kinds and any bypass ratio: nvPM mass EI = k_slm * C_BC * Q / 1000 with the documented C_BC(SN), k_slm and
+    Q; invalid smoke numbers give 0; the result is non-negative."""
+    from pyvc.models import mathfn
+    I = h.I
+    h.trust('exp(x) > 0; ln(x) >= 0 for x >= 1 (instances for the SCOPE11 terms)')
+    TMV = I.lookup_fq('AEIC.performance.types:ThrustModeValues')
+    TM = I.lookup_fq('AEIC.performance.types:ThrustMode')
+    et = ['TF', 'MTF'][h.choice(2)]
+    bpr = h.real('bypass_ratio')
+    h.assume(bpr >= 0, 'bypass ratio >= 0')
+    sns, kinds = [], []
+    for m in TM.members:
+        kind = h.choice(3)
+        kinds.append(kind)
+        if kind == 0:
+            sns.append(-1)
+        elif kind == 1:
+            sns.append(0)
+        else:
+            v = h.real(f'SN_{m.name}')
+            h.assume(v > 0, 'valid smoke numbers are positive')
+            sns.append(v)
+    prof = h.call('AEIC.emissions.ei.pmnvol:calculate_PMnvolEI_scope11', I.call(TMV, sns, {}), et, bpr)
+    afr = [106, 83, 51, 45]
+    for i, m in enumerate(TM.members):
+        g = to_real(I.getitem(prof, m))
+        if kinds[i] < 2:
+            h.ensure('invalid-smoke-number-gives-zero', g == 0, note=m.name)
+            continue
+        # min(SN, 40), written the way the executor merges the builtin (so that the two sides differ only arithmetically)
+        s = to_real(I.merge_values(I.compare('<', 40, sns[i]), 40, sns[i]))
+        cbc = rv('0.6484') * mathfn.F_EXP(rv('0.0766') * s) / (1 + mathfn.F_EXP(rv('-1.098') * (s - rv('3.064'))))
+        b = (1 + bpr) if et == 'MTF' else z3.RealVal(1)
+        ratio = (rv('3.219') * cbc * b * 1000 + rv('312.5')) / (cbc * b * 1000 + rv('42.6'))
+        k = mathfn.F_LOG(ratio)
+        q = rv('0.776') * afr[i] * b + rv('0.767')
+        h.ensure('scope11-mass-index-equals-the-documented-formula', g == k * cbc * q / 1000, note=m.name)
+        # non-negativity: C_BC > 0 (exp > 0), ratio >= 1 hence k_slm >= 0, Q > 0
+        e1, e2 = mathfn.F_EXP(rv('0.0766') * s), mathfn.F_EXP(rv('-1.098') * (s - rv('3.064')))
+        h.ctx.assume(z3.And(e1 > 0, e2 > 0))
+        h.lemma('exit-plane-concentration-positive', cbc > 0, note=m.name)
+        h.lemma('loss-ratio-at-least-one', ratio >= 1, note=m.name)
+        h.ctx.assume(z3.Implies(ratio >= 1, k >= 0))
+        h.ensure('scope11-mass-index-non-negative', g >= 0, note=m.name)
+
+
+def replay_scope11(payload):
+    r = native_sample(dict(seed=1, n=60))
+    bad = [v for v in r.get('violations', []) if 'SCOPE11' in v['what']]
+    return dict(reproduced=bool(bad), observed=bad[:3])
+
+
+@unit('C12', 'bffm2.hc-co', ['AEIC.emissions.ei.hcco:EI_HCCO'], replay='contracts.C12:replay_hcco', max_paths=20000, timeout_ms=30000)
+def hcco(h):
+    """EI_HCCO for fuel-flow arrays of any length: the documented bilinear fit in log-log space (slanted segment below
+    the intercept, horizontal above, SAGE clamping rules), zero for non-positive fuel flow below the intercept, the ACRP
+    low-thrust factor below idle fuel flow and the ambient factor theta^3.3 / delta^1.02; linear in the certification
+    indices' scale where the fit is."""
+    from pyvc.models import mathfn
+    from pyvc.source import Unsupported
+    I = h.I
+    L = mathfn.F_LOG10
+    POW = mathfn.F_POW
+    h.trust('log10 / pow as uninterpreted functions; np.isclose(a, 0) <=> |a| <= 1e-8')
+    xe, x, TM = tmv(h, 'EI')
+    cc, c, _ = tmv(h, 'ff_cal')
+    ff, n = arr(h, 'fuel_flow')
+    T, P = h.real('Tamb'), h.real('Pamb')
+    h.assume(z3.And(T > 0, P > 0), 'ambient temperature and pressure positive')
+    try:
+        out = call(h, 'AEIC.emissions.ei.hcco:EI_HCCO', ff, xe, cc, T, P)
+    except PyExc as e:
+        h.fail('no-undefined-operation-on-positive-certification-data', f'{e.inst!r} at {e.inst.where}')
+        return
+
+    def decide(cond):
+        if h.ctx.entails(cond):
+            return True
+        if h.ctx.entails(z3.Not(cond)):
+            return False
+        raise Unsupported('scalar decision of the fit not fixed by the path condition')
+    x0, x1, x2, x3 = (x[m] for m in ('IDLE', 'APPROACH', 'CLIMB', 'TAKEOFF'))
+    c0, c1, c2, c3 = (c[m] for m in ('IDLE', 'APPROACH', 'CLIMB', 'TAKEOFF'))
+    tol = rv('1e-8')
+    sn, sd = L(x1) - L(x0), L(c1) - L(c0)
+    slope = z3.RealVal(0) if decide(z3.And(sd <= tol, sd >= -tol)) else sn / sd
+    blf, ble = L(c0), L(x0)
+    hz = (L(x2) + L(x3)) / 2
+    if decide(z3.And(slope <= tol, slope >= -tol)):
+        xi = L(c1)
+    else:
+        xi = (2 * L(c0) * slope + L(x2) + L(x3) - 2 * L(x0)) / (2 * slope)
+    l1, l2 = L(c1), L(c2)
+    if decide(xi > l2):
+        xi = l2
+    elif decide(z3.And(xi < l1, slope < 0)):
+        hz, xi = L(x1), l1
+    elif decide(slope >= 0):
+        slope, blf, ble, xi = z3.RealVal(0), z3.RealVal(0), hz, l1
+    k = generic_k(h, n)
+    f = to_real(ff.at(k))
+    lf = z3.If(f > 0, L(f), z3.RealVal(0))
+    base = z3.If(z3.And(f > 0, lf < xi), POW(z3.RealVal(10), slope * (lf - blf) + ble), z3.If(lf >= xi, POW(z3.RealVal(10), hz), z3.RealVal(0)))
+    acrp = z3.If(f < c0, base * (1 + (-52) * (f - c0)), base)
+    factor = POW(T / rv('288.15'), rv('3.3')) / POW(P / 101325, rv('1.02'))
+    g = to_real(out.at(k))
+    h.ensure('hc-co-index-equals-the-documented-bilinear-fit', g == acrp * factor)
+    h.ctx.assume(z3.And(POW(z3.RealVal(10), slope * (lf - blf) + ble) > 0, POW(z3.RealVal(10), hz) > 0,
+                        POW(T / rv('288.15'), rv('3.3')) > 0, POW(P / 101325, rv('1.02')) > 0))
+    h.ensure('hc-co-index-non-negative-at-and-above-idle-fuel-flow', z3.Implies(f >= c0, g >= 0))
+    h.ensure('one-value-per-fuel-flow', to_z3(I.len_(out)) == n)
+
+
+def replay_hcco(payload):
+    r = native_sample(dict(seed=2, n=80))
+    bad = [v for v in r.get('violations', []) if 'EI_HCCO' in v['what']]
+    return dict(reproduced=bool(bad), observed=bad[:3])
+
+
+@unit('C12', 'meem', ['AEIC.emissions.ei.pmnvol:PMnvol_MEEM'], replay='contracts.C12:replay_meem', max_paths=20000, timeout_ms=30000)
+def meem(h):
+    """MEEM along a trajectory of any length: every returned index is defined (no division by zero, no root / power /
+    logarithm outside its domain), non-negative, and the mass and number indices are linear in the certification
+    indices they are interpolated from (measured nvPM matrices with their optional maximum values)."""
+    from pyvc.models import mathfn
+    I = h.I
+    h.trust('np.interp on the fixed thrust grids: piece-wise linear, exact at nodes, clamped outside; np.diff(a, prepend=a[0])[k] = a[k] - a[k-1] (0 for k = 0); '
+            'ndarray.max() is an upper bound attained by an element; pow(a, b) > 0 for a > 0')
+    TMV = I.lookup_fq('AEIC.performance.types:ThrustModeValues')
+
+    def tm(name, cond):
+        vals = [h.real(f'{name}_{i}') for i in range(4)]
+        for v in vals:
+            h.assume(cond(v))
+        return vals
+    use_sn = h.choice(2) == 1
+    sn = tm('SN', lambda v: v > 0)
+    mass = tm('nvPM_mass', lambda v: v > 0)
+    num = tm('nvPM_num', lambda v: v > 0)
+    h.ctx.assumed.append('positive certification data: smoke numbers, nvPM mass / number indices > 0; pressure ratio > 1; ambient T, P > 0; Mach >= 0; bypass ratio >= 0')
+    pr = h.real('pressure_ratio')
+    h.assume(pr > 1)
+    bpr = h.real('bypass_ratio')
+    h.assume(bpr >= 0)
+    et = ['TF', 'MTF'][h.choice(2)]
+    mk = h.choice(3)
+    mmax, mthr = [(-1, -1), (h.real('EImass_max'), rv('0.575')), (h.real('EImass_max'), rv('0.925'))][mk]
+    nk = h.choice(3) if not use_sn else 0
+    nmax, nthr = [(-1, -1), (h.real('EInum_max'), rv('0.575')), (h.real('EInum_max'), rv('0.925'))][nk]
+    if mk:
+        h.assume(mmax > 0)
+    if nk:
+        h.assume(nmax > 0)
+    n = h.int('n_points')
+    h.assume(n >= 1)
+    alt = SArr.symbolic(h.ctx, 'altitude', n)
+    T = SArr.symbolic(h.ctx, 'Tamb', n, where=lambda v: v > 0)
+    P = SArr.symbolic(h.ctx, 'Pamb', n, where=lambda v: v > 0)
+    M = SArr.symbolic(h.ctx, 'mach', n, where=lambda v: v >= 0)
+    amax = h.real('max_altitude')
+
+    def diff(I_, a, prepend=None, **kw):
+        if prepend is None:
+            raise Unsupported('np.diff without prepend')
+        g = a.snapshot()
+        return SArr(a.length, lambda k: z3.If(to_z3(k) == 0, to_real(g.at(0)) - to_real(prepend), to_real(g.at(k)) - to_real(g.at(to_z3(k) - 1))))
+    I.models['numpy.diff'] = diff
+    I.hooks['array_max'] = lambda a: amax if a is alt else None
+    orig_where = I.models['numpy.where']
+    I.models['numpy.where'] = lambda I_, c, *rest: orig_where(I_, c, *rest) if rest else ('indices-where', c)
+
+    def concat(I_, parts, **kw):
+        out = []
+        for p in parts:
+            out += list(I_.iterate(p))
+        return SArr.from_list(out)
+    I.models['numpy.concatenate'] = concat
+
+    def run(scale):
+        sc = lambda vs: [scale * v for v in vs]      # noqa
+        e = h.new('AEIC.performance.edb:EDBEntry', engine='E', uid='U', engine_type=et, BP_Ratio=bpr, rated_thrust=h.real('rated'),
+                  SN_matrix=I.call(TMV, list(sn), {}),
+                  nvPM_mass_matrix=I.call(TMV, [-1, -1, -1, -1] if use_sn else sc(mass), {}),
+                  nvPM_num_matrix=I.call(TMV, [-1, -1, -1, -1] if use_sn else sc(num), {}),
+                  PR=I.call(TMV, [pr, pr, pr, pr], {}), EImass_max=(scale * mmax if mk else -1), EImass_max_thrust=mthr,
+                  EInum_max=(scale * nmax if nk else -1), EInum_max_thrust=nthr, _partial=True)
+        return call(h, 'AEIC.emissions.ei.pmnvol:PMnvol_MEEM', e, alt, T, P, M)
+    try:
+        g1 = run(1)
+    except PyExc as e:
+        h.fail('every-operation-is-defined-on-valid-data', f'{e.inst!r} at {e.inst.where}')
+        return
+    k = generic_k(h, n)
+    gmd, em, en = (to_real(a.at(k)) for a in g1)
+    h.ensure('one-value-per-point', z3.And(*[to_z3(I.len_(a)) == n for a in g1]))
+    h.ensure('indices-non-negative', z3.And(gmd >= 0, em >= 0, en >= 0))
+    if not use_sn:
+        try:
+            g3 = run(3)
+        except PyExc as e:
+            h.fail('every-operation-is-defined-on-valid-data', f'{e.inst!r} at {e.inst.where}')
+            return
+        h.ensure('mass-and-number-indices-scale-linearly-with-the-certification-indices',
+                 z3.And(to_real(g3[1].at(k)) == 3 * em, to_real(g3[2].at(k)) == 3 * en, to_real(g3[0].at(k)) == gmd))
+
+
+def replay_meem(payload):
+    r = native_sample(dict(seed=3, n=100))
+    bad = [v for v in r.get('violations', []) if 'MEEM' in v['what']]
+    return dict(reproduced=bool(bad), observed=bad[:3])
